@@ -4,6 +4,7 @@ import (
 	"encoding/hex"
 	"encoding/json"
 	"fmt"
+	"math/big"
 	"runtime"
 	"strconv"
 	"strings"
@@ -485,7 +486,16 @@ func minU(a, b uint64) uint64 {
 // corrupt turns an honest share into a wrong one; returns the tag naming the corruption.
 func (h *Hist) corrupt(msg *tsstypes.MsgSubmitSignature, m *Member, signing tsstypes.Signing, sa tsstypes.SigningAttempt) string {
 	sig := append([]byte{}, msg.Signature...)
-	switch h.Rng.Intn(6) {
+	switch h.Rng.Intn(7) {
+	case 6: // the assigned nonce POINT with the scalar of the NEGATED nonce: s' = -k + c*lambda*x, so s'G - c*lambda*Y = -R (same x, other y)
+		if alt := h.negatedNonceShare(m, signing, sa); alt != nil && len(alt) == len(sig) {
+			copy(sig[33:], alt[33:])
+			msg.Signature = sig
+			return "sig:negated-nonce"
+		}
+		sig[47] ^= 0x20
+		msg.Signature = sig
+		return "sig:corrupt-z"
 	case 5: // a correct Schnorr share for the member's key, but made with a nonce other than the assigned one
 		key := m.Keys[signing.GroupID]
 		var mids []tss.MemberID
@@ -555,6 +565,44 @@ func (h *Hist) corrupt(msg *tsstypes.MsgSubmitSignature, m *Member, signing tsst
 		msg.Signature = sig
 		return "sig:corrupt-z"
 	}
+}
+
+var curveN, _ = new(big.Int).SetString("FFFFFFFFFFFFFFFFFFFFFFFFFFFFFFFEBAAEDCE6AF48A03BBFD25E8CD0364141", 16)
+
+// negatedNonceShare signs with -k instead of the member's bound nonce k (everything else as an honest share).
+func (h *Hist) negatedNonceShare(m *Member, signing tsstypes.Signing, sa tsstypes.SigningAttempt) []byte {
+	var am *tsstypes.AssignedMember
+	var mids []tss.MemberID
+	for i := range sa.AssignedMembers {
+		mids = append(mids, sa.AssignedMembers[i].MemberID)
+		if sa.AssignedMembers[i].Address == m.Acc.Addr.String() {
+			am = &sa.AssignedMembers[i]
+		}
+	}
+	key := m.Keys[signing.GroupID]
+	if am == nil || key == nil {
+		return nil
+	}
+	de := m.DEs[deKey(am.PubD, am.PubE)]
+	if de == nil {
+		return nil
+	}
+	k, err := tss.ComputeOwnPrivNonce(de.PrivD, de.PrivE, am.BindingFactor)
+	if err != nil {
+		return nil
+	}
+	neg := new(big.Int).Sub(curveN, new(big.Int).SetBytes(k))
+	nb := make([]byte, 32)
+	neg.FillBytes(nb)
+	lag, err := tss.ComputeLagrangeCoefficient(key.MemberID, mids)
+	if err != nil {
+		return nil
+	}
+	alt, err := tss.SignSigning(signing.GroupPubNonce, signing.GroupPubKey, signing.Message, lag, tss.Scalar(nb), key.PrivKey)
+	if err != nil {
+		return nil
+	}
+	return alt
 }
 
 // hostileExtra adds submissions that are misplaced rather than malformed.
